@@ -47,6 +47,11 @@ pub fn utils_q(f: &str, args: &[&str]) -> String {
                 7 => popcnt_wide::<7>(&ws),
                 8 => popcnt_wide::<8>(&ws),
                 16 => popcnt_wide::<16>(&ws),
+                31 => popcnt_wide::<31>(&ws),
+                32 => popcnt_wide::<32>(&ws),
+                33 => popcnt_wide::<33>(&ws),
+                64 => popcnt_wide::<64>(&ws),
+                100 => popcnt_wide::<100>(&ws),
                 _ => popcnt_wide::<0>(&ws),
             };
             o_val(r)
